@@ -160,6 +160,8 @@ func checkSeq(seq []int) {
 			}
 		})
 	}
+	// 4c. the cloud-lookup queue
+	cloudQueue(seq)
 	// 5. consolidator, sequential, 1 and 2 slots
 	for slots := 1; slots <= 2; slots++ {
 		sink := make(chan []*gostatsd.MetricMap, 1)
@@ -181,6 +183,73 @@ func checkSeq(seq []int) {
 		}
 		mc.Flush()
 		compare("consolidator", seq, gostatsd.MergeMaps(<-sink), w, fmt.Sprint("slots=", slots))
+	}
+}
+
+// ---- the cloud-lookup queue as a merge path: batches of one unknown source are parked (merged into one
+// queue) while the lookup is outstanding, and re-keyed when its answer arrives. Sequential, with real
+// goroutines and no timing dependence: every step is acknowledged by a channel operation of the handler.
+
+type fakeCI struct {
+	ipSink chan gostatsd.Source
+	info   chan gostatsd.InstanceInfo
+}
+
+func (c *fakeCI) Peek(gostatsd.Source) (*gostatsd.Instance, bool) { return nil, false }
+func (c *fakeCI) IpSink() chan<- gostatsd.Source                  { return c.ipSink }
+func (c *fakeCI) InfoSource() <-chan gostatsd.InstanceInfo        { return c.info }
+func (c *fakeCI) EstimatedTags() int                              { return 1 }
+
+type chanSink struct{ got chan *gostatsd.MetricMap }
+
+func (s chanSink) EstimatedTags() int                                           { return 0 }
+func (s chanSink) WaitForEvents()                                               {}
+func (s chanSink) DispatchEvent(context.Context, *gostatsd.Event)               {}
+func (s chanSink) DispatchMetricMap(_ context.Context, mm *gostatsd.MetricMap) { s.got <- mm }
+
+func cloudQueue(seq []int) {
+	const ip = gostatsd.Source("10.0.0.9")
+	for variant, inst := range []*gostatsd.Instance{{ID: "i-9", Tags: gostatsd.Tags{"r:1"}}, {ID: "i-9"}, nil} {
+		ci := &fakeCI{ipSink: make(chan gostatsd.Source, 4), info: make(chan gostatsd.InstanceInfo)}
+		sink := chanSink{got: make(chan *gostatsd.MetricMap, 4)}
+		ch := statsd.NewCloudHandler(ci, sink)
+		ctx, cancel := context.WithCancel(context.Background())
+		done := make(chan struct{})
+		go func() { ch.Run(ctx); close(done) }()
+		w := mapref.Agg{}
+		n := 0
+		for _, i := range seq {
+			var dps []mapref.DP
+			for _, d := range menu[i] {
+				d.Source = string(ip)
+				dps = append(dps, d)
+				e := d
+				if inst != nil {
+					e.Source = string(inst.ID)
+					e.Tags = append(append([]string{}, d.Tags...), inst.Tags...)
+				}
+				w.Add(e)
+				n++
+			}
+			if len(dps) > 0 {
+				ch.DispatchMetricMap(ctx, buildMap(dps)) // returns once Run has taken the batch
+			}
+		}
+		var got *gostatsd.MetricMap
+		if n > 0 {
+			<-ci.ipSink
+			ci.info <- gostatsd.InstanceInfo{IP: ip, Instance: inst}
+			select {
+			case got = <-sink.got:
+			case <-time.After(5 * time.Minute):
+				res.Violate("cloud-queue nothing-dispatched", fmt.Sprintf("sequence %v: nothing left the cloud stage after the lookup was answered", seq), map[string]any{"seq": seq, "path": "cloud-queue"})
+			}
+		}
+		cancel()
+		<-done
+		if got != nil {
+			compare("cloud-queue", seq, got, w, fmt.Sprint("lookup-variant=", variant))
+		}
 	}
 }
 
